@@ -4,6 +4,7 @@ import (
 	"bytes"
 	"fmt"
 	"runtime"
+	"sync"
 	"runtime/debug"
 	"testing"
 
@@ -91,6 +92,9 @@ func checkDecode(in []byte) (string, e5.Value, bool) {
 			// not part of the property, but an item next to an error would be observable
 			_ = a.item
 		}
+		if msg := recheckKept(); msg != "" {
+			return msg, refV, false
+		}
 		return "", refV, false
 	}
 	for _, r := range []struct {
@@ -123,11 +127,75 @@ func checkDecode(in []byte) (string, e5.Value, bool) {
 	if refV.FC != e5.Empty && (!secs2.Equal(a.item, b.item)) && !hasNaN(refV) {
 		return "Decode and DecodeOwned results are not Equal", refV, true
 	}
+	if msg := keepAndRecheck(a.item, refV); msg != "" {
+		return msg, refV, true
+	}
 	return "", refV, true
 }
 
+// A decoded item is an independent value: the application may keep it while the decoder goes on to
+// other inputs - accepted and rejected ones. The ledger keeps the items of earlier inputs of this
+// process (the last 24, small ones) with the values the grammar assigns to them and re-reads one of
+// them, leaf by leaf, after every later decode.
+type keptItem struct {
+	it   secs2.Item
+	want e5.Value
+}
+
+var (
+	keptMu   sync.Mutex
+	keptRing []keptItem
+	keptNext int
+)
+
+func keepAndRecheck(it secs2.Item, v e5.Value) string {
+	keptMu.Lock()
+	defer keptMu.Unlock()
+	recheck := func(k keptItem) string {
+		for fam := 0; fam < 3; fam++ {
+			ov, err := obs.Value(k.it, fam)
+			if err != nil {
+				return fmt.Sprintf("an item decoded EARLIER and kept by the caller can no longer be read (family %d): %v", fam, err)
+			}
+			if !e5.Same(ov, k.want) {
+				return fmt.Sprintf("an item decoded EARLIER and kept by the caller changed while later inputs were decoded: now %s, was %s", ov, k.want)
+			}
+		}
+		return ""
+	}
+	if n := len(keptRing); n > 0 {
+		if msg := recheck(keptRing[keptNext%n]); msg != "" {
+			return msg
+		}
+	}
+	if it != nil && it.EncodedLen() <= 4096 {
+		if len(keptRing) < 24 {
+			keptRing = append(keptRing, keptItem{it, v})
+		} else {
+			keptRing[keptNext%24] = keptItem{it, v}
+		}
+	}
+	keptNext++
+	return ""
+}
+
+// recheckKept re-reads every kept item (called after inputs the decoder REJECTED).
+func recheckKept() string {
+	keptMu.Lock()
+	defer keptMu.Unlock()
+	for _, k := range keptRing {
+		for fam := 0; fam < 3; fam++ {
+			ov, err := obs.Value(k.it, fam)
+			if err != nil || !e5.Same(ov, k.want) {
+				return fmt.Sprintf("an item decoded EARLIER and kept by the caller changed after the decoder rejected a later input: now %s (err %v), was %s", ov, err, k.want)
+			}
+		}
+	}
+	return ""
+}
+
 func TestC02Decode(t *testing.T) {
-	ev.Rule("inputs = valid reference encodings of generated trees put through structured mutators (byte flips, truncation, format-byte / length-byte-count / length-field rewrites, valid non-canonical re-encodings, wrapping to depth 63..66, trailing bytes, splices, hostile headers claiming up to 2^24-1 bytes, nested hostile lists) plus random strings. Oracle: no panic; accept/reject and decoded values equal to the independent E5 reference decoder (both directions); ToBytes == consumed prefix; Decode and DecodeOwned agree; TotalAlloc delta <= 128*len+256KiB. Non-trivial: input >= 2 bytes that differs from a canonical valid encoding and is either accepted in non-canonical form or rejected; distinct by input bytes.")
+	ev.Rule("inputs = valid reference encodings of generated trees put through structured mutators (byte flips, truncation, format-byte / length-byte-count / length-field rewrites, valid non-canonical re-encodings, wrapping to depth 63..66, trailing bytes, splices, hostile headers claiming up to 2^24-1 bytes, nested hostile lists) plus random strings. Oracle: no panic; accept/reject and decoded values equal to the independent E5 reference decoder (both directions); ToBytes == consumed prefix; Decode and DecodeOwned agree; TotalAlloc delta <= (128+8x64)*len+256KiB; items of earlier inputs, kept by the caller (a ring of 24), still read the same after every later accepted or rejected input. Non-trivial: input >= 2 bytes that differs from a canonical valid encoding and is either accepted in non-canonical form or rejected; distinct by input bytes.")
 	old := debug.SetGCPercent(-1)
 	defer debug.SetGCPercent(old)
 	n := 0
